@@ -2,6 +2,8 @@ package main
 
 import (
 	"encoding/json"
+	"fmt"
+	"net"
 	"path"
 	"strings"
 )
@@ -27,6 +29,9 @@ func libRun(in0 interface{}) Result {
 	case "suffix":
 		o := strings.HasSuffix(in.A, in.B)
 		return Result{Term: cApp("LHasSuffix", cStr(in.A), cStr(in.B), cBool(o)), Obs: o, Nontrivial: o, Class: "suffix"}
+	case "shp":
+		h, p, err := net.SplitHostPort(in.A)
+		return Result{Term: cApp("LSplitHostPort", cStr(in.A), cBool(err == nil), cStr(h), cStr(p)), Obs: []string{h, p, fmt.Sprint(err)}, Nontrivial: err == nil, Class: "shp"}
 	case "split":
 		parts := strings.Split(in.A, in.B)
 		return Result{Term: cApp("LSplit", cN(uint64(in.B[0])), cStr(in.A), cStrList(parts)), Obs: parts, Nontrivial: len(parts) > 1, Class: "split"}
@@ -52,6 +57,28 @@ func libGen(r *Rand, tier string) []interface{} {
 		}
 	}
 	rec(nil)
+	// net.SplitHostPort: exhaustive over {a : [ ] 1} up to length 5 (6 thorough) + random
+	{
+		al := []byte{'a', ':', '[', ']', '1'}
+		ml := 5
+		if tier == "thorough" {
+			ml = 7
+		}
+		var rec2 func(prefix []byte)
+		rec2 = func(prefix []byte) {
+			out = append(out, &libIn{Kind: "shp", A: string(prefix)})
+			if len(prefix) == ml {
+				return
+			}
+			for _, c := range al {
+				rec2(append(append([]byte(nil), prefix...), c))
+			}
+		}
+		rec2(nil)
+		for _, s := range []string{"example.com:80", "[::1]:2015", "[::1]", "::1", "a.b:http", "[fe80::1%eth0]:80", "[]:", ":", "a:", ":1", "[a]b:1", "[a]:1:2", "x[a]:1", "[a:b]:c]"} {
+			out = append(out, &libIn{Kind: "shp", A: s})
+		}
+	}
 	rs := func(n int) string {
 		b := make([]byte, n)
 		a2 := []byte("/./..ab\\AZz%é")
